@@ -354,16 +354,25 @@ def never_true_hasattr(test):
         and test.args[1].value.startswith("__") and not test.args[1].value.endswith("__")
 
 
-def always_true(test):
+def truth3(test):
+    """three-valued truth of a test in which hasattr(self, "__name") is known to be false (name mangling): True / False / None"""
     if isinstance(test, ast.Constant):
         return bool(test.value)
     if isinstance(test, ast.UnaryOp) and isinstance(test.op, ast.Not):
-        return never_true_hasattr(test.operand) or (isinstance(test.operand, ast.Constant) and not test.operand.value)
-    if isinstance(test, ast.BoolOp) and isinstance(test.op, ast.Or):
-        return any(always_true(v) for v in test.values)
-    if isinstance(test, ast.BoolOp) and isinstance(test.op, ast.And):
-        return all(always_true(v) for v in test.values)
-    return False
+        v = truth3(test.operand)
+        return None if v is None else (not v)
+    if isinstance(test, ast.BoolOp):
+        vals = [truth3(v) for v in test.values]
+        if isinstance(test.op, ast.And):
+            return False if any(v is False for v in vals) else (True if all(v is True for v in vals) else None)
+        return True if any(v is True for v in vals) else (False if all(v is False for v in vals) else None)
+    if never_true_hasattr(test):
+        return False
+    return None
+
+
+def always_true(test):
+    return truth3(test) is True
 
 
 def r6(R, m, methods):
